@@ -260,7 +260,7 @@ def e3w_jobs(ctx, spec, cfg, bs, m, maxnul=1, witness=True, timeout=900, mem_mb=
     return jobs, g
 
 
-def e4_jobs(ctx, spec, cfg, mode, lengths, maxnul=0, timeout=600, mem_mb=10000, witness_len=None, extra_options=(), rej_k=None):
+def e4_jobs(ctx, spec, cfg, mode, lengths, maxnul=0, timeout=600, mem_mb=10000, witness_len=None, extra_options=(), rej_k=None, interior=False):
     """History jobs: mode in reject | yyreject | edit | more."""
     wd = ctx.subdir('%s__%s__e4%s' % (spec.name, cfg.name, mode))
     opts = ALLOC_OPTS + list(extra_options)
@@ -276,23 +276,34 @@ def e4_jobs(ctx, spec, cfg, mode, lengths, maxnul=0, timeout=600, mem_mb=10000, 
         return jobs, g
     for n in lengths:
         for w in ([False, True] if (witness_len == n) else [False]):
-            src = os.path.join(wd, 'e4%s_n%d%s%s.c' % (mode, n, '_w' if w else '', '' if rej_k is None else '_k%d' % rej_k))
+            itag = ('_int' if interior else '') + ('_nul%d' % min(maxnul, n) if (min(maxnul, n) and mode.startswith(('reject', 'yyreject'))) else '')
+            src = os.path.join(wd, 'e4%s_n%d%s%s%s.c' % (mode, n, '_w' if w else '', '' if rej_k is None else '_k%d' % rej_k, itag))
             with open(src, 'w') as fh:
-                if mode in ('reject', 'yyreject'):
-                    fh.write(H.e4_reject_harness(g, cfg, spec, n, maxnul=min(maxnul, n), witness=w, rej_k=rej_k))
+                if mode in ('reject', 'yyreject', 'reject_sites', 'yyreject_sites'):
+                    fh.write(H.e4_reject_harness(g, cfg, spec, n, maxnul=min(maxnul, n), witness=w, rej_k=rej_k, interior=interior))
                 else:
                     fh.write(H.e4_edit_harness(g, cfg, spec, n, mode=mode, maxnul=min(maxnul, n), witness=w))
             b = scanner_bounds(g, n + 1, min(maxnul, n) + 1)
             nv = n * len(spec.rules) + 2
             b.update({'goto_find_rule': nv, 'find_rule_for': n + 3, 'shiftup': n + 6,
-                      'action_site': (nv if mode in ('reject', 'yyreject') else n + 3)})
+                      'action_site': (nv if mode in ('reject', 'yyreject', 'reject_sites', 'yyreject_sites') else n + 3)})
             if rej_k is not None:
                 b['action_site'] = rej_k + 2
-            j = cbmc.Job('e4%s_%s_%s_n%d%s%s' % (mode, spec.name, cfg.name, n, '_w' if w else '', '' if rej_k is None else '_k%d' % rej_k), wd, [src], b,
+            if mode.startswith(('reject', 'yyreject')) and min(maxnul, n) == 0 and n > 0 and not interior:
+                # no NUL in the input: the end of the buffer is met once, with pending text (one 'goto
+                # yy_find_action'); no NUL transition, no EOF action, every action returns
+                b.update({'goto_match': 1, 'goto_find_action': 2, 'goto_do_action': 1, 'outer': 1})
+            if interior:
+                # the end-of-buffer code is not entered: its back edges (and the outer action loop) are
+                # not taken; the unwinding assertions check exactly that
+                b = scanner_bounds(g, n + 2, min(maxnul, n) + 1)
+                b.update({'goto_find_rule': nv, 'find_rule_for': n + 3, 'action_site': (rej_k + 2 if rej_k is not None else nv),
+                          'goto_match': 1, 'goto_find_action': 1, 'goto_do_action': 1, 'outer': 1})
+            j = cbmc.Job('e4%s_%s_%s_n%d%s%s%s' % (mode, spec.name, cfg.name, n, '_w' if w else '', '' if rej_k is None else '_k%d' % rej_k, itag), wd, [src], b,
                          includes=[wd, H.HDIR], harness_bound=None, timeout=timeout, mem_mb=mem_mb, gen_file=g.cpath,
                          expect='witness' if w else 'proved',
                          meta=dict(engine='E4', entry=spec.name, config=cfg.name,
-                                   bound='%s: input length %d, nul<=%d' % (mode, n, min(maxnul, n)),
+                                   bound='%s: input length %d%s, nul<=%d' % (mode, n, ' + 1 byte at which the match attempt has jammed' if interior else '', min(maxnul, n)),
                                    flex_input=g.ltext, flex_args=g.args))
             jobs.append(j)
     ctx.functions.update(['yylex', 'yyunput_r', 'yyinput', 'yyless', 'yymore', 'yyreject'])
